@@ -1,3 +1,938 @@
 package main
 
-func e2eStage(dir string, seed uint64, tier string) error { return nil }
+// End-to-end stage: synthetic signed multi-architecture repositories on disk,
+// driven through the public API (build.NewMultiArch / BuildPackageLists,
+// build.LockImageConfiguration) and through the CLI binary (apko lock,
+// apko build [--lockfile]). Everything that is judged is an OBSERVED output.
+
+import (
+	"archive/tar"
+	"bytes"
+	"compress/gzip"
+	"context"
+	"crypto/sha1"
+	"crypto/sha256"
+	"encoding/base64"
+	"encoding/json"
+	"fmt"
+	"io"
+	"log/slog"
+	"os"
+	"os/exec"
+	"path/filepath"
+	"sort"
+	"strconv"
+	"strings"
+
+	"chainguard.dev/apko/pkg/apk/apk"
+	"chainguard.dev/apko/pkg/build"
+	"chainguard.dev/apko/pkg/build/types"
+	"github.com/chainguard-dev/clog"
+	"verifharness/gal"
+	"verifharness/synthrepo"
+)
+
+// ---- scenarios -----------------------------------------------------------------
+
+// spec of one package build: which architectures carry it, in which repository
+type pspec struct {
+	Name     string   `json:"name"`
+	Version  string   `json:"version"`
+	Archs    []string `json:"archs"` // apk names: x86_64, aarch64, riscv64
+	Deps     []string `json:"deps,omitempty"`
+	Provides []string `json:"provides,omitempty"`
+	Edge     bool     `json:"edge,omitempty"` // lives in the tagged repository "@edge"
+	// per-architecture overrides of provides (key: apk arch)
+	ProvidesOn map[string][]string `json:"provides_on,omitempty"`
+}
+
+type scenario struct {
+	Name  string   `json:"name"`
+	Archs []string `json:"archs"` // apk names
+	World []string `json:"world"`
+	Pkgs  []pspec  `json:"pkgs"`
+}
+
+type world struct {
+	sc      scenario
+	dir     string
+	key     *synthrepo.Key
+	main    *synthrepo.Repo
+	edge    *synthrepo.Repo
+	hasEdge bool
+}
+
+func filesFor(name, version string) []synthrepo.File {
+	return []synthrepo.File{
+		{Name: "usr", Type: tar.TypeDir, Mode: 0o755},
+		{Name: "usr/share", Type: tar.TypeDir, Mode: 0o755},
+		{Name: "usr/share/" + name, Type: tar.TypeDir, Mode: 0o755},
+		{Name: "usr/share/" + name + "/VERSION", Mode: 0o644, Content: []byte(name + " " + version + "\n")},
+	}
+}
+
+func materialise(sc scenario, key *synthrepo.Key, root string) (*world, error) {
+	w := &world{sc: sc, dir: root, key: key}
+	var mainPkgs, edgePkgs []*synthrepo.Pkg
+	for _, p := range sc.Pkgs {
+		for _, a := range p.Archs {
+			prov := p.Provides
+			if o, ok := p.ProvidesOn[a]; ok {
+				prov = o
+			}
+			sp := &synthrepo.Pkg{Name: p.Name, Version: p.Version, Arch: a, Origin: p.Name, Deps: p.Deps, Provides: prov,
+				Description: "synthetic " + p.Name, License: "MIT", Files: filesFor(p.Name, p.Version)}
+			if p.Edge {
+				edgePkgs = append(edgePkgs, sp)
+			} else {
+				mainPkgs = append(mainPkgs, sp)
+			}
+		}
+	}
+	var err error
+	if w.main, err = synthrepo.Write(filepath.Join(root, "main"), key, mainPkgs); err != nil {
+		return nil, err
+	}
+	if len(edgePkgs) > 0 {
+		w.hasEdge = true
+		if w.edge, err = synthrepo.Write(filepath.Join(root, "edge"), key, edgePkgs); err != nil {
+			return nil, err
+		}
+	}
+	return w, nil
+}
+
+// taggedOnly: this (name, version) can only come from the tagged repository
+func (w *world) taggedOnly(arch, name, version string) bool {
+	return w.built(arch, name, version, true) != nil && w.built(arch, name, version, false) == nil
+}
+
+func (w *world) repos() []string {
+	r := []string{w.main.Dir}
+	if w.hasEdge {
+		r = append(r, "@edge "+w.edge.Dir)
+	}
+	return r
+}
+
+func (w *world) ic(packages []string, archs []string) types.ImageConfiguration {
+	ic := types.ImageConfiguration{}
+	ic.Contents.RuntimeRepositories = w.repos()
+	ic.Contents.Keyring = []string{w.main.KeyPath()}
+	ic.Contents.Packages = append([]string(nil), packages...)
+	for _, a := range archs {
+		ic.Archs = append(ic.Archs, types.ParseArchitecture(a))
+	}
+	return ic
+}
+
+// ---- observations through the API ------------------------------------------------
+
+type opkg struct {
+	Name     string   `json:"name"`
+	Version  string   `json:"version"`
+	Provides []string `json:"provides,omitempty"`
+	Deps     []string `json:"deps,omitempty"`
+	Tagged   bool     `json:"tagged_only,omitempty"`
+}
+
+func quietCtx() context.Context {
+	return clog.WithLogger(context.Background(), clog.New(slog.NewTextHandler(io.Discard, nil)))
+}
+
+// resolveMulti: the per-architecture install lists of a multi-arch context,
+// keyed by the OCI architecture name; nil map = resolution failed.
+func resolveMulti(ic types.ImageConfiguration) (res map[string][]opkg, errText string) {
+	defer func() {
+		if r := recover(); r != nil {
+			res, errText = nil, fmt.Sprint("panic: ", r)
+		}
+	}()
+	ctx := quietCtx()
+	mc, err := build.NewMultiArch(ctx, ic.Archs, build.WithImageConfiguration(ic))
+	if err != nil {
+		return nil, err.Error()
+	}
+	lists, err := mc.BuildPackageLists(ctx)
+	if err != nil {
+		return nil, err.Error()
+	}
+	res = map[string][]opkg{}
+	for a, l := range lists {
+		var ps []opkg
+		for _, p := range l {
+			ps = append(ps, opkg{Name: p.Name, Version: p.Version, Provides: append([]string(nil), p.Provides...), Deps: append([]string(nil), p.Dependencies...)})
+		}
+		res[types.ParseArchitecture(a.ToAPK()).String()] = ps
+	}
+	return res, ""
+}
+
+type lockObs struct {
+	Kind    string              `json:"kind"` // ok | err | panic
+	Err     string              `json:"err,omitempty"`
+	ByArch  map[string][]string `json:"by_arch,omitempty"`
+	Missing map[string][]string `json:"missing,omitempty"`
+	ics     map[string]*types.ImageConfiguration
+}
+
+func (o lockObs) gal() string {
+	return uobs{Kind: o.Kind, ByArch: o.ByArch, Missing: o.Missing}.gal()
+}
+
+func lockImage(ic types.ImageConfiguration) (o lockObs) {
+	defer func() {
+		if r := recover(); r != nil {
+			o = lockObs{Kind: "panic", Err: fmt.Sprint(r)}
+		}
+	}()
+	ics, missing, err := build.LockImageConfiguration(quietCtx(), ic)
+	if err != nil {
+		return lockObs{Kind: "err", Err: err.Error()}
+	}
+	o = lockObs{Kind: "ok", ByArch: map[string][]string{}, Missing: missing, ics: ics}
+	for a, c := range ics {
+		o.ByArch[a] = append([]string{}, c.Contents.Packages...)
+	}
+	return o
+}
+
+func galOpkgs(ps []opkg) string {
+	it := make([]string, len(ps))
+	for i, p := range ps {
+		it[i] = fmt.Sprintf("{| q_pkg := {| p_name := %s; p_version := %s; p_provides := %s |}; q_deps := %s; q_tagged_only := %s |}",
+			gal.Str(p.Name), gal.Str(p.Version), gal.StrList(p.Provides), gal.StrList(p.Deps), gal.Bool(p.Tagged))
+	}
+	return gal.List(it)
+}
+
+func galNV(ps []opkg) string {
+	it := make([]string, len(ps))
+	for i, p := range ps {
+		it[i] = gal.Pair(gal.Str(p.Name), gal.Str(p.Version))
+	}
+	return gal.List(it)
+}
+
+func sortedArchs[V any](m map[string]V) []string {
+	ks := make([]string, 0, len(m))
+	for k := range m {
+		ks = append(ks, k)
+	}
+	sort.Strings(ks)
+	return ks
+}
+
+// one API case: resolution, lock (several runs), re-resolution of every lock
+type apiDesc struct {
+	Scenario   scenario          `json:"scenario"`
+	Resolution map[string][]opkg `json:"resolution"`
+	ResErr     string            `json:"resolution_error,omitempty"`
+	Lock       lockObs           `json:"lock"`
+	Relock     map[string][]opkg `json:"relock,omitempty"`
+	RelockErr  map[string]string `json:"relock_errors,omitempty"`
+	IndexRe    map[string][]opkg `json:"index_relock,omitempty"`
+	IndexReErr string            `json:"index_relock_error,omitempty"`
+}
+
+func apiCase(w *gal.Writer, wd *world, class string, lockRuns int) {
+	sc := wd.sc
+	ic := wd.ic(sc.World, sc.Archs)
+	d := apiDesc{Scenario: sc}
+	d.Resolution, d.ResErr = resolveMulti(ic)
+	for a, ps := range d.Resolution {
+		for i := range ps {
+			ps[i].Tagged = wd.taggedOnly(types.ParseArchitecture(a).ToAPK(), ps[i].Name, ps[i].Version)
+		}
+	}
+	var runs []string
+	var first lockObs
+	for i := 0; i < lockRuns; i++ {
+		o := lockImage(ic)
+		if i == 0 || (first.Kind != "ok" && o.Kind == "ok") {
+			first = o
+		}
+		runs = append(runs, o.gal())
+	}
+	d.Lock = first
+	// re-resolve every per-architecture lock (single-architecture context, as
+	// LockImageConfiguration sets Archs of that configuration) and, when no
+	// architecture is missing anything, the shared lock on all architectures
+	relock := "[]"
+	indexRe := "None"
+	if first.Kind == "ok" {
+		d.Relock, d.RelockErr = map[string][]opkg{}, map[string]string{}
+		var it []string
+		for _, a := range sortedArchs(first.ics) {
+			if a == "index" {
+				continue
+			}
+			r, e := resolveMulti(*first.ics[a])
+			if r == nil {
+				d.RelockErr[a] = e
+				it = append(it, gal.Pair(gal.Str(a), "None"))
+				continue
+			}
+			d.Relock[a] = r[a]
+			it = append(it, gal.Pair(gal.Str(a), "(Some "+galNV(r[a])+")"))
+		}
+		relock = gal.List(it)
+		if len(first.Missing) == 0 {
+			if ix, ok := first.ics["index"]; ok {
+				r, e := resolveMulti(*ix)
+				if r == nil {
+					d.IndexReErr = e
+					indexRe = "(Some None)"
+				} else {
+					d.IndexRe = r
+					var jt []string
+					for _, a := range sortedArchs(r) {
+						jt = append(jt, gal.Pair(gal.Str(a), galNV(r[a])))
+					}
+					indexRe = "(Some (Some " + gal.List(jt) + "))"
+				}
+			}
+		}
+	}
+	res := "None"
+	if d.Resolution != nil {
+		var it []string
+		for _, a := range sortedArchs(d.Resolution) {
+			it = append(it, gal.Pair(gal.Str(a), galOpkgs(d.Resolution[a])))
+		}
+		res = "(Some " + gal.List(it) + ")"
+	}
+	term := fmt.Sprintf("{| e_originals := %s; e_resolution := %s; e_lock_runs := %s; e_relock := %s; e_index_relock := %s |}",
+		gal.StrList(sc.World), res, gal.List(runs), relock, indexRe)
+	w.Add(gal.Case{Term: term, Class: class + "/lock=" + first.Kind, Trivial: len(sc.Archs) < 2, Key: term, Desc: d})
+}
+
+// ---- CLI ---------------------------------------------------------------------------
+
+func apkoBin() string {
+	if p := os.Getenv("VERIF_APKO_BIN"); p != "" {
+		return p
+	}
+	return filepath.Join(os.Getenv("VERIF_DIR"), "build", "bin", "apko")
+}
+
+// buildApko builds the CLI from the repository under test (VERIF_REPO).
+func buildApko() error {
+	repo := os.Getenv("VERIF_REPO")
+	if repo == "" {
+		repo = "/repo"
+	}
+	out := apkoBin()
+	if repo != "/repo" { // a scratch copy gets its own binary
+		out = filepath.Join(os.TempDir(), fmt.Sprintf("apko-c09-%d", os.Getpid()))
+		os.Setenv("VERIF_APKO_BIN", out)
+	}
+	cmd := exec.Command("go", "build", "-o", out, ".")
+	cmd.Dir = repo
+	cmd.Env = append(os.Environ(), "GOFLAGS=-mod=mod", "GOPROXY=off", "GOSUMDB=off", "GOTOOLCHAIN=local", "CGO_ENABLED=0")
+	if b, err := cmd.CombinedOutput(); err != nil {
+		return fmt.Errorf("building apko: %v\n%s", err, b)
+	}
+	return nil
+}
+
+func runApko(dir string, env []string, args ...string) (string, error) {
+	cmd := exec.Command(apkoBin(), args...)
+	cmd.Dir = dir
+	cmd.Env = append(os.Environ(), env...)
+	b, err := cmd.CombinedOutput()
+	return string(b), err
+}
+
+func (w *world) writeConfig(path string, packages []string, archs []string) error {
+	var sb strings.Builder
+	sb.WriteString("contents:\n  repositories:\n")
+	for _, r := range w.repos() {
+		fmt.Fprintf(&sb, "    - %q\n", r)
+	}
+	fmt.Fprintf(&sb, "  keyring:\n    - %q\n  packages:\n", w.main.KeyPath())
+	for _, p := range packages {
+		fmt.Fprintf(&sb, "    - %q\n", p)
+	}
+	sb.WriteString("archs:\n")
+	for _, a := range archs {
+		fmt.Fprintf(&sb, "  - %s\n", a)
+	}
+	sb.WriteString("cmd: /bin/true\n")
+	return os.WriteFile(path, []byte(sb.String()), 0o644)
+}
+
+type lockJSON struct {
+	Version string `json:"version"`
+	Config  *struct {
+		Name     string `json:"name"`
+		Checksum string `json:"checksum"`
+	} `json:"config"`
+	Contents struct {
+		Packages []struct {
+			Name         string `json:"name"`
+			URL          string `json:"url"`
+			Version      string `json:"version"`
+			Architecture string `json:"architecture"`
+			Signature    rc     `json:"signature"`
+			Control      rc     `json:"control"`
+			Data         rc     `json:"data"`
+			Checksum     string `json:"checksum"`
+		} `json:"packages"`
+	} `json:"contents"`
+}
+type rc struct {
+	Range    string `json:"range"`
+	Checksum string `json:"checksum"`
+}
+
+// parseRange: "bytes=lo-hi" -> numbers; ok=false when the text has another shape
+func parseRange(s string) (lo, hi int64, ok bool) {
+	t, found := strings.CutPrefix(s, "bytes=")
+	if !found {
+		return 0, 0, false
+	}
+	a, b, found := strings.Cut(t, "-")
+	if !found {
+		return 0, 0, false
+	}
+	lo, e1 := strconv.ParseInt(a, 10, 64)
+	hi, e2 := strconv.ParseInt(b, 10, 64)
+	return lo, hi, e1 == nil && e2 == nil
+}
+
+func hashRange(file []byte, lo, hi int64, ok bool, sha256sum bool) string {
+	if !ok || lo < 0 || hi < lo || hi >= int64(len(file)) {
+		return "<range-outside-file>"
+	}
+	if sha256sum {
+		h := sha256.Sum256(file[lo : hi+1])
+		return base64.StdEncoding.EncodeToString(h[:])
+	}
+	h := sha1.Sum(file[lo : hi+1])
+	return base64.StdEncoding.EncodeToString(h[:])
+}
+
+func (w *world) built(arch, name, version string, edge bool) *synthrepo.Built {
+	r := w.main
+	if edge {
+		r = w.edge
+	}
+	if r == nil {
+		return nil
+	}
+	for _, b := range r.Built[arch] {
+		if b.Pkg.Name == name && b.Pkg.Version == version {
+			return b
+		}
+	}
+	return nil
+}
+
+func galSection(r rc) string {
+	return fmt.Sprintf("{| s_range := %s; s_checksum := %s |}", gal.Str(r.Range), gal.Str(r.Checksum))
+}
+func galNums(lo, hi int64, ok bool) string {
+	if !ok {
+		return "{| n_lo := 0%Z; n_hi := (-2)%Z |}"
+	}
+	return fmt.Sprintf("{| n_lo := %s; n_hi := %s |}", gal.Z(lo), gal.Z(hi))
+}
+
+// singleArchResolution: what `apko lock` resolves for one architecture (its
+// contexts are single-architecture ones)
+func singleArchResolution(wd *world, packages []string, arch string) []opkg {
+	r, _ := resolveMulti(wd.ic(packages, []string{arch}))
+	if r == nil {
+		return nil
+	}
+	return r[types.ParseArchitecture(arch).String()]
+}
+
+type cliDesc struct {
+	Scenario scenario          `json:"scenario"`
+	LockOut  string            `json:"apko_lock_output,omitempty"`
+	LockErr  bool              `json:"apko_lock_failed"`
+	NPkgs    int               `json:"lock_packages"`
+	Builds   map[string]string `json:"builds,omitempty"`
+}
+
+// readImage: from the docker-style tarball `apko build` writes: the manifest
+// text (config digest + layer digests) and the installed database of the layer.
+func readImage(tarPath string) (manifest string, installed []opkg, err error) {
+	f, err := os.Open(tarPath)
+	if err != nil {
+		return "", nil, err
+	}
+	defer f.Close()
+	tr := tar.NewReader(f)
+	var layers [][]byte
+	for {
+		h, err := tr.Next()
+		if err == io.EOF {
+			break
+		}
+		if err != nil {
+			return "", nil, err
+		}
+		b, err := io.ReadAll(tr)
+		if err != nil {
+			return "", nil, err
+		}
+		switch {
+		case h.Name == "manifest.json":
+			var m []struct {
+				Config string
+				Layers []string
+			}
+			if err := json.Unmarshal(b, &m); err != nil {
+				return "", nil, err
+			}
+			for _, e := range m {
+				manifest += e.Config + " " + strings.Join(e.Layers, ",") + ";"
+			}
+		case strings.HasSuffix(h.Name, ".tar.gz"):
+			layers = append(layers, b)
+		}
+	}
+	for _, l := range layers {
+		zr, err := gzip.NewReader(bytes.NewReader(l))
+		if err != nil {
+			return "", nil, err
+		}
+		lt := tar.NewReader(zr)
+		for {
+			h, err := lt.Next()
+			if err == io.EOF {
+				break
+			}
+			if err != nil {
+				return "", nil, err
+			}
+			if strings.TrimPrefix(h.Name, "./") == "lib/apk/db/installed" || strings.TrimPrefix(h.Name, "./") == "usr/lib/apk/db/installed" {
+				b, _ := io.ReadAll(lt)
+				var cur opkg
+				for _, line := range strings.Split(string(b), "\n") {
+					switch {
+					case strings.HasPrefix(line, "P:"):
+						cur.Name = line[2:]
+					case strings.HasPrefix(line, "V:"):
+						cur.Version = line[2:]
+					case line == "":
+						if cur.Name != "" {
+							installed = append(installed, cur)
+						}
+						cur = opkg{}
+					}
+				}
+				if cur.Name != "" {
+					installed = append(installed, cur)
+				}
+			}
+		}
+	}
+	return manifest, installed, nil
+}
+
+// cliCase: apko lock on the scenario; every package entry of lock.json judged
+// against the package file it points at; then (optionally) locked and unlocked
+// builds of one architecture. [after] mutates the repositories between locking
+// and building (e.g. publishes a newer version), nil = leave them alone.
+func cliCase(wl, wb *gal.Writer, wd *world, class string, buildArchs []string, after func(*world) error) {
+	sc := wd.sc
+	work := filepath.Join(wd.dir, "work")
+	_ = os.MkdirAll(work, 0o755)
+	cfg := filepath.Join(work, "apko.yaml")
+	if err := wd.writeConfig(cfg, sc.World, sc.Archs); err != nil {
+		fmt.Fprintln(os.Stderr, "c09:", err)
+		return
+	}
+	env := []string{"SOURCE_DATE_EPOCH=0", "XDG_CACHE_HOME=" + filepath.Join(wd.dir, "cache"), "HOME=" + wd.dir}
+	lockPath := filepath.Join(work, "apko.lock.json")
+	out, err := runApko(work, env, "lock", cfg, "--output", lockPath, "--arch", strings.Join(sc.Archs, ","))
+	d := cliDesc{Scenario: sc, LockErr: err != nil}
+	if err != nil {
+		d.LockOut = tail(out, 600)
+	}
+	// expected: the single-architecture resolution of every architecture
+	var resIt []string
+	resolvable := true
+	for _, a := range sc.Archs {
+		r := singleArchResolution(wd, sc.World, a)
+		if r == nil {
+			resolvable = false
+		}
+		resIt = append(resIt, gal.Pair(gal.Str(a), galNV(r)))
+	}
+	var pkgIt []string
+	var lj lockJSON
+	if err == nil {
+		b, rerr := os.ReadFile(lockPath)
+		if rerr == nil {
+			rerr = json.Unmarshal(b, &lj)
+		}
+		if rerr != nil {
+			fmt.Printf("IMPL-VIOLATION tag=lock-json-unreadable %q\n", rerr.Error())
+		}
+		d.NPkgs = len(lj.Contents.Packages)
+		for _, p := range lj.Contents.Packages {
+			// the package file the entry points at
+			file, ferr := os.ReadFile(p.URL)
+			var bt *synthrepo.Built
+			for _, edge := range []bool{false, true} {
+				if x := wd.built(p.Architecture, p.Name, p.Version, edge); x != nil && ferr == nil && bytes.Equal(x.Bytes, file) {
+					bt = x
+				}
+			}
+			known := bt != nil
+			var sizes [3]int64
+			var hs [3]string
+			if known {
+				sizes = [3]int64{int64(len(bt.Sig)), int64(len(bt.Control)), int64(len(bt.Data))}
+				s1 := sha1.Sum(bt.Sig)
+				c1 := sha1.Sum(bt.Control)
+				d2 := sha256.Sum256(bt.Data)
+				hs = [3]string{base64.StdEncoding.EncodeToString(s1[:]), base64.StdEncoding.EncodeToString(c1[:]), base64.StdEncoding.EncodeToString(d2[:])}
+			}
+			slo, shi, sok := parseRange(p.Signature.Range)
+			clo, chi, cok := parseRange(p.Control.Range)
+			dlo, dhi, dok := parseRange(p.Data.Range)
+			q1 := ""
+			if known {
+				q1 = bt.Checksum()
+			}
+			pkgIt = append(pkgIt, fmt.Sprintf("{| f_name := %s; f_version := %s; f_arch := %s; f_file_known := %s; f_sig := %s; f_ctl := %s; f_dat := %s; f_checksum := %s; "+
+				"f_sig_nums := %s; f_ctl_nums := %s; f_dat_nums := %s; f_file_len := %s; f_sizes := (%s, %s, %s); f_true_hashes := (%s, %s, %s); f_range_hashes := (%s, %s, %s); f_true_q1 := %s |}",
+				gal.Str(p.Name), gal.Str(p.Version), gal.Str(p.Architecture), gal.Bool(known), galSection(p.Signature), galSection(p.Control), galSection(p.Data), gal.Str(p.Checksum),
+				galNums(slo, shi, sok), galNums(clo, chi, cok), galNums(dlo, dhi, dok), gal.Z(int64(len(file))),
+				gal.Z(sizes[0]), gal.Z(sizes[1]), gal.Z(sizes[2]), gal.Str(hs[0]), gal.Str(hs[1]), gal.Str(hs[2]),
+				gal.Str(hashRange(file, slo, shi, sok, false)), gal.Str(hashRange(file, clo, chi, cok, false)), gal.Str(hashRange(file, dlo, dhi, dok, true)), gal.Str(q1)))
+		}
+	}
+	term := fmt.Sprintf("(CLock {| lf_archs := %s; lf_resolvable := %s; lf_locked := %s; lf_resolution := %s; lf_pkgs := %s |})",
+		gal.StrList(sc.Archs), gal.Bool(resolvable), gal.Bool(err == nil), gal.List(resIt), gal.List(pkgIt))
+	wl.Add(gal.Case{Term: term, Class: class, Trivial: false, Key: term, Desc: d})
+
+	if err != nil || len(buildArchs) == 0 {
+		return
+	}
+	if after != nil {
+		if aerr := after(wd); aerr != nil {
+			fmt.Fprintln(os.Stderr, "c09: after-lock step:", aerr)
+			return
+		}
+	}
+	d.Builds = map[string]string{}
+	for _, a := range buildArchs {
+		lockedTar := filepath.Join(work, "locked-"+a+".tar")
+		plainTar := filepath.Join(work, "plain-"+a+".tar")
+		o1, e1 := runApko(work, env, "build", cfg, "c09/img:latest", lockedTar, "--arch", a, "--sbom=false", "--lockfile", lockPath)
+		o2, e2 := runApko(work, env, "build", cfg, "c09/img:latest", plainTar, "--arch", a, "--sbom=false")
+		var m1, m2 string
+		var i1, i2 []opkg
+		if e1 == nil {
+			m1, i1, e1 = readImage(lockedTar)
+		} else {
+			d.Builds[a+"/locked"] = tail(o1, 400)
+		}
+		if e2 == nil {
+			m2, i2, e2 = readImage(plainTar)
+		} else {
+			d.Builds[a+"/plain"] = tail(o2, 400)
+		}
+		var listed []opkg
+		for _, p := range lj.Contents.Packages {
+			if p.Architecture == a {
+				listed = append(listed, opkg{Name: p.Name, Version: p.Version})
+			}
+		}
+		bterm := fmt.Sprintf("(CBuild {| b_arch := %s; b_repo_changed := %s; b_listed := %s; b_locked_ok := %s; b_plain_ok := %s; b_locked_installed := %s; b_plain_installed := %s; b_locked_manifest := %s; b_plain_manifest := %s |})",
+			gal.Str(a), gal.Bool(after != nil), galNV(listed), gal.Bool(e1 == nil), gal.Bool(e2 == nil), galNV(i1), galNV(i2), gal.Str(m1), gal.Str(m2))
+		wb.Add(gal.Case{Term: bterm, Class: class + "/build", Trivial: false, Key: bterm, Desc: d})
+		os.Remove(lockedTar)
+		os.Remove(plainTar)
+	}
+}
+
+func tail(s string, n int) string {
+	if len(s) > n {
+		return s[len(s)-n:]
+	}
+	return s
+}
+
+var _ = apk.NewCache
+
+// ---- scenario corpus and generator ---------------------------------------------------
+
+var (
+	X  = "x86_64"
+	Y  = "aarch64"
+	Zr = "riscv64"
+)
+
+func both() []string { return []string{X, Y} }
+
+func corpusScenarios() []scenario {
+	return []scenario{
+		{Name: "basic-dep", Archs: both(), World: []string{"a"}, Pkgs: []pspec{
+			{Name: "a", Version: "1.0-r0", Archs: both(), Deps: []string{"b"}}, {Name: "b", Version: "2.0-r0", Archs: both()}}},
+		{Name: "single-arch", Archs: []string{X}, World: []string{"a"}, Pkgs: []pspec{
+			{Name: "a", Version: "1.0-r0", Archs: both(), Deps: []string{"b"}}, {Name: "b", Version: "2.0-r0", Archs: both()}}},
+		{Name: "newer-version-on-one-arch", Archs: both(), World: []string{"a"}, Pkgs: []pspec{
+			{Name: "a", Version: "1.0-r0", Archs: both(), Deps: []string{"b"}}, {Name: "b", Version: "2.0-r0", Archs: both()},
+			{Name: "b", Version: "2.1-r0", Archs: []string{X}}}},
+		{Name: "requested-newer-on-one-arch", Archs: both(), World: []string{"b"}, Pkgs: []pspec{
+			{Name: "b", Version: "2.0-r0", Archs: both()}, {Name: "b", Version: "2.1-r0", Archs: []string{Y}}}},
+		{Name: "three-archs", Archs: []string{X, Y, Zr}, World: []string{"a", "c"}, Pkgs: []pspec{
+			{Name: "a", Version: "1.0-r0", Archs: []string{X, Y, Zr}, Deps: []string{"b"}}, {Name: "b", Version: "2.0-r0", Archs: []string{X, Y, Zr}},
+			{Name: "b", Version: "2.1-r0", Archs: []string{X, Zr}}, {Name: "c", Version: "0.1-r0", Archs: []string{X, Y, Zr}}}},
+		{Name: "virtual-by-provided-name", Archs: both(), World: []string{"v"}, Pkgs: []pspec{
+			{Name: "p1", Version: "1.0-r0", Archs: both(), Provides: []string{"v=1.0"}}}},
+		{Name: "virtual-two-providers", Archs: both(), World: []string{"v"}, Pkgs: []pspec{
+			{Name: "p1", Version: "1.0-r0", Archs: both(), Provides: []string{"v=1.0"}},
+			{Name: "p2", Version: "1.0-r0", Archs: both(), Provides: []string{"v=2.0"}}}},
+		{Name: "virtual-unversioned-provide", Archs: both(), World: []string{"v", "a"}, Pkgs: []pspec{
+			{Name: "p1", Version: "1.0-r0", Archs: both(), Provides: []string{"v"}},
+			{Name: "a", Version: "1.0-r0", Archs: both(), Deps: []string{"v"}}}},
+		{Name: "virtual-vs-real-per-arch", Archs: both(), World: []string{"v"}, Pkgs: []pspec{
+			{Name: "p1", Version: "1.0-r0", Archs: both(), ProvidesOn: map[string][]string{X: {"v=9.0"}}},
+			{Name: "v", Version: "1.0-r0", Archs: both()}}},
+		{Name: "provides-differ-per-arch", Archs: both(), World: []string{"p1", "w"}, Pkgs: []pspec{
+			{Name: "p1", Version: "1.0-r0", Archs: both(), Provides: []string{"w=1"}, ProvidesOn: map[string][]string{Y: {"w=1", "z=1"}}}}},
+		{Name: "pinned-from-tagged-repo", Archs: both(), World: []string{"a@edge"}, Pkgs: []pspec{
+			{Name: "a", Version: "2.0-r0", Archs: both(), Edge: true}}},
+		{Name: "pinned-prefers-tagged-version", Archs: both(), World: []string{"a@edge", "c"}, Pkgs: []pspec{
+			{Name: "a", Version: "1.0-r0", Archs: both()}, {Name: "a", Version: "2.0-r0", Archs: both(), Edge: true},
+			{Name: "c", Version: "1.0-r0", Archs: both()}}},
+		{Name: "pinned-with-dependency-in-tagged-repo", Archs: both(), World: []string{"a@edge"}, Pkgs: []pspec{
+			{Name: "a", Version: "2.0-r0", Archs: both(), Edge: true, Deps: []string{"d"}},
+			{Name: "d", Version: "3.0-r0", Archs: both(), Edge: true}}},
+		{Name: "pinned-virtual", Archs: both(), World: []string{"v@edge"}, Pkgs: []pspec{
+			{Name: "p1", Version: "1.0-r0", Archs: both(), Edge: true, Provides: []string{"v=1.0"}}}},
+		{Name: "operators", Archs: both(), World: []string{"a>=1.0", "b~2", "c<3", "d=4.0-r0"}, Pkgs: []pspec{
+			{Name: "a", Version: "1.0-r0", Archs: both()}, {Name: "a", Version: "1.5-r0", Archs: both()},
+			{Name: "b", Version: "2.0-r0", Archs: both()}, {Name: "b", Version: "2.4-r1", Archs: both()}, {Name: "b", Version: "3.0-r0", Archs: both()},
+			{Name: "c", Version: "2.9-r0", Archs: both()}, {Name: "c", Version: "3.0-r0", Archs: both()},
+			{Name: "d", Version: "4.0-r0", Archs: both()}, {Name: "d", Version: "4.1-r0", Archs: both()}}},
+		{Name: "duplicate-requests", Archs: both(), World: []string{"a", "a", "b", "a>=1.0"}, Pkgs: []pspec{
+			{Name: "a", Version: "1.0-r0", Archs: both()}, {Name: "b", Version: "1.0-r0", Archs: both()}}},
+		{Name: "other-package-provides-locked-name-version", Archs: both(), World: []string{"a"}, Pkgs: []pspec{
+			{Name: "a", Version: "1.0-r0", Archs: both(), Deps: []string{"b"}},
+			{Name: "b", Version: "1.0-r0", Archs: both()},
+			{Name: "q", Version: "5.0-r0", Archs: both(), Provides: []string{"b=1.0-r0"}}}},
+		{Name: "other-package-provides-higher-version-of-locked-name", Archs: both(), World: []string{"b"}, Pkgs: []pspec{
+			{Name: "b", Version: "1.0-r0", Archs: both()},
+			{Name: "q", Version: "5.0-r0", Archs: both(), Provides: []string{"b=9.0"}}}},
+		{Name: "provider-with-unrelated-provide-of-equal-version", Archs: both(), World: []string{"a"}, Pkgs: []pspec{
+			{Name: "a", Version: "1.0-r0", Archs: both(), Deps: []string{"b"}},
+			{Name: "b", Version: "1.0-r0", Archs: both()},
+			{Name: "q", Version: "5.0-r0", Archs: both(), Provides: []string{"b", "zz=1.0-r0"}}}},
+		{Name: "diamond", Archs: both(), World: []string{"a", "e"}, Pkgs: []pspec{
+			{Name: "a", Version: "1.0-r0", Archs: both(), Deps: []string{"b", "c"}}, {Name: "b", Version: "1.0-r0", Archs: both(), Deps: []string{"d>=1"}},
+			{Name: "c", Version: "1.0-r0", Archs: both(), Deps: []string{"d<3"}}, {Name: "d", Version: "1.0-r0", Archs: both()}, {Name: "d", Version: "2.0-r0", Archs: both()},
+			{Name: "d", Version: "3.0-r0", Archs: both()}, {Name: "e", Version: "1.0-r0", Archs: both(), Deps: []string{"so:libd.so.1"}},
+			{Name: "libd", Version: "1.2-r0", Archs: both(), Provides: []string{"so:libd.so.1=1"}}}},
+		{Name: "dependency-missing-on-one-arch", Archs: both(), World: []string{"a"}, Pkgs: []pspec{
+			{Name: "a", Version: "1.0-r0", Archs: both(), Deps: []string{"b"}}, {Name: "b", Version: "1.0-r0", Archs: []string{X}}}},
+	}
+}
+
+func genScenario(r *gal.Rand, i int) scenario {
+	names := []string{"n0", "n1", "n2", "n3", "n4", "n5"}
+	extra := []string{"1.0-r1", "1.1-r0", "2.0-r0"}
+	// virtual names and the base package that always provides them
+	virt := map[string]string{"v": "n5", "cmd:sh": "n4", "so:libq.so.2": "n3"}
+	virtNames := []string{"v", "cmd:sh", "so:libq.so.2"}
+	archs := both()
+	if r.Chance(1, 5) {
+		archs = []string{X, Y, Zr}
+	}
+	if r.Chance(1, 12) {
+		archs = []string{Y}
+	}
+	sc := scenario{Name: fmt.Sprintf("gen-%d", i), Archs: archs}
+	hasEdge := r.Chance(1, 3)
+	inEdge := map[string]bool{}
+	for k, nm := range names {
+		vs := []string{"1.0-r0"}
+		for _, v := range extra {
+			if r.Chance(1, 3) {
+				vs = append(vs, v)
+			}
+		}
+		for j, v := range vs {
+			p := pspec{Name: nm, Version: v}
+			for _, a := range archs {
+				if j == 0 || r.Chance(3, 4) {
+					p.Archs = append(p.Archs, a)
+				}
+			}
+			if len(p.Archs) == 0 {
+				p.Archs = []string{archs[r.Intn(len(archs))]}
+			}
+			// dependencies only on later names: acyclic
+			for _, dn := range names[k+1:] {
+				if r.Chance(1, 4) {
+					d := dn
+					if r.Chance(1, 3) {
+						d += gal.Pick(r, []string{">=1.0", "<2.0", "~1", "=1.0-r0", ">1.0-r0", "<1.1"})
+					}
+					p.Deps = append(p.Deps, d)
+				}
+			}
+			if r.Chance(1, 6) {
+				vn := gal.Pick(r, virtNames)
+				if virt[vn] != nm {
+					p.Deps = append(p.Deps, vn)
+				}
+			}
+			for _, vn := range virtNames {
+				if virt[vn] == nm {
+					pv := vn
+					if r.Chance(2, 3) {
+						pv += "=" + gal.Pick(r, []string{"1.0", "2.0", v})
+					}
+					p.Provides = append(p.Provides, pv)
+				} else if r.Chance(1, 10) {
+					p.Provides = append(p.Provides, vn+"="+gal.Pick(r, []string{"1.0", "2.0", "3.0"}))
+				}
+			}
+			if r.Chance(1, 12) { // provides another real name at some version
+				p.Provides = append(p.Provides, gal.Pick(r, names)+"="+gal.Pick(r, append([]string{"1.0-r0"}, extra...)))
+			}
+			if hasEdge && j > 0 && r.Chance(1, 2) {
+				p.Edge = true
+				inEdge[nm] = true
+			}
+			if len(archs) > 1 && len(p.Provides) > 0 && r.Chance(1, 8) {
+				p.ProvidesOn = map[string][]string{archs[1]: nil}
+			}
+			sc.Pkgs = append(sc.Pkgs, p)
+		}
+	}
+	if hasEdge && r.Chance(1, 2) { // a package that exists only in the tagged repository, with a dependency there
+		sc.Pkgs = append(sc.Pkgs, pspec{Name: "e0", Version: "1.0-r0", Archs: archs, Edge: true, Deps: []string{"e1"}},
+			pspec{Name: "e1", Version: "1.0-r0", Archs: archs, Edge: true})
+		inEdge["e0"] = true
+	}
+	nw := 1 + r.Intn(3)
+	for j := 0; j < nw; j++ {
+		var wv string
+		nm := ""
+		if r.Chance(1, 5) {
+			wv = gal.Pick(r, virtNames)
+		} else {
+			nm = gal.Pick(r, names)
+			wv = nm
+			if r.Chance(1, 4) {
+				wv += gal.Pick(r, []string{">=1.0", "<2.0", "~1", "=1.0-r0", "<=1.1-r0"})
+			}
+		}
+		if hasEdge && r.Chance(1, 2) {
+			if inEdge[nm] {
+				wv += "@edge"
+			} else if inEdge["e0"] && r.Chance(1, 2) {
+				wv = "e0@edge"
+			}
+		}
+		sc.World = append(sc.World, wv)
+		if r.Chance(1, 10) {
+			sc.World = append(sc.World, wv)
+		}
+	}
+	return sc
+}
+
+func withWorld(key *synthrepo.Key, sc scenario, f func(*world)) {
+	root, err := os.MkdirTemp("", "c09-*")
+	if err != nil {
+		fmt.Fprintln(os.Stderr, "c09:", err)
+		return
+	}
+	defer os.RemoveAll(root)
+	wd, err := materialise(sc, key, root)
+	if err != nil {
+		fmt.Fprintln(os.Stderr, "c09: materialise:", err)
+		return
+	}
+	f(wd)
+}
+
+func apiStage(dir string, seed uint64, tier string) error {
+	cache, _ := os.MkdirTemp("", "c09-cache-*")
+	defer os.RemoveAll(cache)
+	os.Setenv("XDG_CACHE_HOME", cache)
+	os.Setenv("HOME", cache)
+	key, err := synthrepo.NewKey("c09@verif-0009.rsa.pub")
+	if err != nil {
+		return err
+	}
+	w := &gal.Writer{Dir: dir, Require: "From Apko Require Import Corr.C09.", Type: "api_case", Check: "check_api", Shard: 25}
+	for _, sc := range corpusScenarios() {
+		sc := sc
+		withWorld(key, sc, func(wd *world) { apiCase(w, wd, "corpus/"+sc.Name, 4) })
+	}
+	r := gal.NewRand(seed + 31)
+	n := 40
+	if tier == "thorough" {
+		n = 600
+	}
+	for i := 0; i < n; i++ {
+		sc := genScenario(r, i)
+		withWorld(key, sc, func(wd *world) { apiCase(w, wd, fmt.Sprintf("gen/archs=%d", len(sc.Archs)), 3) })
+	}
+	return w.Flush()
+}
+
+func cliStage(dir string, seed uint64, tier string) error {
+	if err := buildApko(); err != nil {
+		return err
+	}
+	key, err := synthrepo.NewKey("c09@verif-0009.rsa.pub")
+	if err != nil {
+		return err
+	}
+	w := &gal.Writer{Dir: dir, Require: "From Apko Require Import Corr.C09.", Type: "cli_case", Check: "check_cli", Shard: 20}
+	cs := corpusScenarios()
+	pick := map[string][]string{ // scenario -> architectures to build (locked and unlocked)
+		"basic-dep": {X}, "virtual-by-provided-name": {Y}, "pinned-with-dependency-in-tagged-repo": {X}, "diamond": {X},
+		"newer-version-on-one-arch": {X},
+	}
+	for _, sc := range cs {
+		sc := sc
+		ba := pick[sc.Name]
+		if tier == "thorough" && ba == nil && len(sc.Archs) > 0 {
+			ba = []string{sc.Archs[0]}
+		}
+		withWorld(key, sc, func(wd *world) { cliCase(w, w, wd, "corpus/"+sc.Name, ba, nil) })
+	}
+	// the repository moves on after locking: the locked build must still install what the lock lists
+	moved := scenario{Name: "repo-publishes-newer-after-lock", Archs: both(), World: []string{"a"}, Pkgs: []pspec{
+		{Name: "a", Version: "1.0-r0", Archs: both(), Deps: []string{"b"}}, {Name: "b", Version: "2.0-r0", Archs: both()}}}
+	withWorld(key, moved, func(wd *world) {
+		cliCase(w, w, wd, "corpus/"+moved.Name, []string{X}, func(wd *world) error {
+			sc2 := wd.sc
+			sc2.Pkgs = append(append([]pspec(nil), sc2.Pkgs...), pspec{Name: "b", Version: "2.1-r0", Archs: both()}, pspec{Name: "zz", Version: "1-r0", Archs: both()})
+			sc2.Pkgs[0].Deps = []string{"b"}
+			_, err := materialise(sc2, wd.key, wd.dir)
+			return err
+		})
+	})
+	r := gal.NewRand(seed + 57)
+	n := 6
+	if tier == "thorough" {
+		n = 80
+	}
+	for i := 0; i < n; i++ {
+		sc := genScenario(r, 1000+i)
+		var ba []string
+		if i%2 == 0 || tier == "thorough" {
+			ba = []string{sc.Archs[0]}
+		}
+		withWorld(key, sc, func(wd *world) { cliCase(w, w, wd, fmt.Sprintf("gen/archs=%d", len(sc.Archs)), ba, nil) })
+	}
+	return w.Flush()
+}
+
+func e2eStage(dir string, seed uint64, tier string) error { return apiStage(dir, seed, tier) }
